@@ -9,7 +9,7 @@ EXPLICIT_FMT = False
 SOURCES = _vasp.SOURCES_HEADER
 CLASSES = ["direct", "cartesian", "selective_direct", "selective_cartesian", "scaled_direct", "scaled_cartesian",
            "negative_scale_direct", "negative_scale_cartesian", "lefthanded", "repeated_species", "nonorthogonal",
-           "keyword_variants", "trailing_velocities"]
+           "keyword_variants", "fractional_keyword", "trailing_velocities"]
 
 SCALES = [0.5291772083, 3.57, 1.8897261, 0.98, 2.0, 10.25]
 
@@ -43,12 +43,17 @@ def generate(rng, klass):
     elif klass == "keyword_variants":
         kw.update(keyword_variants=True, cartesian=bool(rng.integers(2)), selective=bool(rng.integers(2)),
                   scale=float(rng.choice([1.0, 2.0])))
+    elif klass == "fractional_keyword":
+        # direct coordinates announced by a word that does not start with D: only a first character C/c/K/k means Cartesian
+        kw.update(selective=bool(rng.integers(2)), scale=float(rng.choice([1.0, 3.57])))
     elif klass == "trailing_velocities":
         kw.update(cartesian=bool(rng.integers(2)), selective=bool(rng.integers(2)))
         trailing = True
     else:
         raise ValueError(klass)
     h = _vasp.gen_header(rng, **kw)
+    if klass == "fractional_keyword":
+        h["kw_mode"] = str(rng.choice(["Fractional", "fractional", "Frac", "fractional coordinates"]))
     if trailing:
         import numpy as np
 
